@@ -17,6 +17,7 @@ R7 both radius branches of ``get_localgrid`` build the LocalGrid from the same s
 from __future__ import annotations
 
 import ast
+import re
 
 from gridlint import e3
 from gridlint.core import AnalysisError, Report, norm, strip_docstring
@@ -398,8 +399,10 @@ def rule_r7(rep, repo):
         # inf branch passes all indices
         for c in calls:
             if len(c.args) >= 4 and "arange" in norm(c.args[3]):
-                if norm(c.args[3]) in ("np.arange(self.size)", "np.arange(len(self.points))", "np.arange(self._weights.size)",
-                                       "np.arange(len(self._points))", "np.arange(len(self.weights))"):
+                a3 = c.args[3]
+                inner = norm(a3.args[0]) if isinstance(a3, ast.Call) and len(a3.args) == 1 and not a3.keywords else ""
+                if norm(a3.func) == "np.arange" and (inner in ("self.size", "self._size") or re.fullmatch(
+                        r"len\((self\.)?_?(points|weights)\)|(self\.)?_?(points|weights)\.shape\[0\]|(self\.)?_?weights\.size", inner)):
                     rep.ok("R7.whole-grid-indices", g.qual, repo.rel(g.module, c), norm(c.args[3]))
                 else:
                     rep.violation("R7.whole-grid-indices", g.qual, "indices",
